@@ -108,7 +108,7 @@ PROPS = {
     },
     "C07": {
         "level": "fault_enumeration",
-        "technique": "pause-and-probe plus crash-point enumeration under ptrace: at every state-changing system call of a node's life another process queries the liveness verdict while the victim is stopped (alive) and again after SIGKILL",
+        "technique": "pause-and-probe plus crash-point enumeration under ptrace: at every state-changing system call of a node's life another process queries the liveness verdict while the victim is stopped (alive) and again after SIGKILL; cleanup exclusivity: every single-preemption interleaving (system-call / libc-call granularity) of two cleaner processes, of a cleaner that is killed, and of two cleaner threads of one process",
         "legs": [{"ws": "seq", "bin": "ptx", "args": ["--prop", "C07"]}],
         "rule": "see coverage.legs[0].rule",
         "assumptions": [
